@@ -4,6 +4,9 @@ import (
 	"context"
 	"errors"
 	"fmt"
+
+	"google.golang.org/grpc/codes"
+	"google.golang.org/grpc/status"
 	"net"
 	"net/http"
 	"sync"
@@ -180,7 +183,16 @@ func (a *authExt) Authenticate(ctx context.Context, sources map[string][]string)
 		a.deny.Add(1)
 		return ctx, errors.New("c15: missing credentials")
 	case v[0] != goodToken:
-		a.deny.Add(1)
+		// what an authenticator that asks a backend returns when it refuses: a plain error, or an error that is / wraps
+		// the gRPC status of its own failed backend call. Whatever it is, the request is unauthenticated.
+		switch a.deny.Add(1) % 4 {
+		case 1:
+			return ctx, status.Error(codes.Unavailable, "c15: token introspection endpoint unavailable")
+		case 2:
+			return ctx, fmt.Errorf("c15: invalid credentials: %w", status.Error(codes.ResourceExhausted, "introspection quota"))
+		case 3:
+			return ctx, status.Error(codes.DeadlineExceeded, "c15: introspection timed out")
+		}
 		return ctx, errors.New("c15: invalid credentials")
 	}
 	return ctx, nil
